@@ -260,7 +260,7 @@ Proof.
   eapply fnode_nodeok; eauto.
 Qed.
 
-Lemma kp1_unit_variant_null n variant m : kp1 m -> kp1 (unit_variant_null Sc n variant m).
+Lemma kp1_unit_variant_null n ename variant m : kp1 m -> kp1 (unit_variant_null Sc n ename variant m).
 Proof.
   intro H. unfold unit_variant_null. destruct n; auto.
   destruct (union_named Sc variants variant) as [[d k']|]; auto.
